@@ -143,7 +143,7 @@ static void run_case(long idx)
          * smallest possible window (the internal input ring never wraps), and the final call preceded by a call that buffered input
          * (so the "compress straight from the caller's buffer" shortcut of the last e_end call cannot apply) */
         {   size_t const minWin = (size_t)1 << (W.P.windowLog ? V_MIN(W.P.windowLog, 19) : 19);
-            int const nowrap = !W.P.nbWorkers && W.n <= minWin / 2 && W.n <= (60u << 10) && W.S.nseg >= 2 && W.S.seg[0].len > 0;
+            int const nowrap = !W.P.nbWorkers && W.n <= minWin / 2 && W.n <= (60u << 10) && W.S.nseg >= 2 && W.S.seg[0].len > 0 && (W.P.windowLog || !W.dictMode);     /* with a dictionary / prefix and no explicit windowLog the window comes from the small-source tables (can be 1 KiB..16 KiB): the ring may wrap */
             compare(W.P.nbWorkers ? "outcap-mt" : nowrap ? "outcap-nowrap" : "outcap", ref, nref, var, nv, &W, desc, k == 0 ? "one huge output window" : "small output windows"); }
         ZSTD_freeCCtx(c); }
     /* axis: number of workers (>= 1), same job size */
